@@ -48,4 +48,47 @@ Section EdgeIndex.
     filter (fun kv => let c := fst (snd kv) in
                       ((minc <? c)%Z && (c <=? maxc)%Z) || (c =? maxc)%Z)
            (key_values ekey einfo_v m).
+
+  (** * histories *)
+  Inductive eiop : Type :=
+  | EIPut (e : ekey) (count : Z) (len : Q)      (* PutEdgeValue *)
+  | EIAdd (e : ekey)                            (* AddEdgeCount *)
+  | EIValue (e : ekey).                         (* Value *)
+  Inductive eires : Type := EIOk | EIVal (r : option einfo_v).
+
+  Fixpoint ei_run (m : eindex) (ops : list eiop) : option (list eires * eindex) :=
+    match ops with
+    | [] => Some ([], m)
+    | EIPut e cn ln :: r =>
+      match ei_put m e cn ln with
+      | None => None
+      | Some m' => match ei_run m' r with Some (rs, mf) => Some (EIOk :: rs, mf) | None => None end
+      end
+    | EIAdd e :: r =>
+      match ei_add m e with
+      | None => None
+      | Some m' => match ei_run m' r with Some (rs, mf) => Some (EIOk :: rs, mf) | None => None end
+      end
+    | EIValue e :: r =>
+      match ei_value m e with
+      | None => None
+      | Some x => match ei_run m r with Some (rs, mf) => Some (EIVal x :: rs, mf) | None => None end
+      end
+    end.
+
+  (** the plain association list keyed by branches compared with HashEquals *)
+  Definition ea_value (a : list (ekey * einfo_v)) (e : ekey) : option einfo_v := assoc_value ekey einfo_v ekey_eqb a e.
+  Definition ea_put (a : list (ekey * einfo_v)) (e : ekey) (v : einfo_v) := assoc_put ekey einfo_v ekey_eqb a e v.
+  Definition ea_add (a : list (ekey * einfo_v)) (e : ekey) :=
+    match ea_value a e with
+    | None => ea_put a e (1%Z, ek_len e)
+    | Some (c, l) => ea_put a e ((c + 1)%Z, (l + ek_len e)%Q)
+    end.
+  Fixpoint ei_run_assoc (a : list (ekey * einfo_v)) (ops : list eiop) : list eires * list (ekey * einfo_v) :=
+    match ops with
+    | [] => ([], a)
+    | EIPut e cn ln :: r => let '(rs, af) := ei_run_assoc (ea_put a e (cn, ln)) r in (EIOk :: rs, af)
+    | EIAdd e :: r => let '(rs, af) := ei_run_assoc (ea_add a e) r in (EIOk :: rs, af)
+    | EIValue e :: r => let '(rs, af) := ei_run_assoc a r in (EIVal (ea_value a e) :: rs, af)
+    end.
 End EdgeIndex.
